@@ -35,8 +35,8 @@ pub fn stub_fmt_format(_args: core::fmt::Arguments<'_>) -> String {
 #[kani::proof]
 #[kani::unwind(5)]
 #[kani::stub(std::collections::hash_map::RandomState::new, stub_random_state)]
-#[kani::stub(core::fmt::write, stub_fmt_write)]
-#[kani::stub(alloc::fmt::format, stub_fmt_format)]
+#[kani::stub(std::fmt::write, stub_fmt_write)]
+#[kani::stub(std::fmt::format, stub_fmt_format)]
 pub fn c20_silent() {
     let mut info = crate::verdict::any_info();
     info.status = crate::verdict::any_status();
@@ -54,7 +54,7 @@ pub fn c20_silent() {
         dh::VPresolver::<f64>::from_parts(&cones_t, Some(vec![true, false]), 2, 1, 1e20).install(&mut data);
     }
     let reduced = dh::data_is_presolved(&data);
-    let cones = cc::new_without_type_counts(&cones_t);
+    crate::stack_composite!(cones, f64, [SupportedConeT::<f64>::NonnegativeConeT(2)]);
     assert!(info.print_configuration(&st, &data, &cones).is_ok());
     assert!(info.print_status_header(&st).is_ok());
     assert!(info.print_status(&st).is_ok());
@@ -89,8 +89,8 @@ impl std::io::Write for W {
 /// the sink accepts everything; get_print_buffer works only for the buffer target
 #[kani::proof]
 #[kani::unwind(8)]
-#[kani::stub(core::fmt::write, stub_fmt_write)]
-#[kani::stub(alloc::fmt::format, stub_fmt_format)]
+#[kani::stub(std::fmt::write, stub_fmt_write)]
+#[kani::stub(std::fmt::format, stub_fmt_format)]
 pub fn c20_route() {
     let a: [u8; 3] = kani::any();
     let b: [u8; 2] = kani::any();
